@@ -130,8 +130,14 @@ void s_hash() {
 int cmp_int(pconstpointer a, pconstpointer b) { return (intptr_t)a < (intptr_t)b ? -1 : (intptr_t)a > (intptr_t)b ? 1 : 0; }
 struct Walk { std::vector<intptr_t> keys, vals; };
 pboolean walk_cb(ppointer k, ppointer v, ppointer data) { ((Walk *)data)->keys.push_back((intptr_t)k); ((Walk *)data)->vals.push_back((intptr_t)v); return FALSE; }
+std::set<intptr_t> g_destroyed_values;
+void value_destroyed(ppointer v) { g_destroyed_values.insert((intptr_t)v); }
+int cmp_int_data(pconstpointer a, pconstpointer b, ppointer) { return cmp_int(a, b); }
 void s_tree(PTreeType ty) {
-  PTree *t = p_tree_new(ty, cmp_int);
+  // half of the runs: the tree owns its values (destroy notifier); a value whose insertion FAILED stays the caller's
+  bool owning = P(3, 2);
+  g_destroyed_values.clear();
+  PTree *t = owning ? p_tree_new_full(ty, cmp_int_data, nullptr, nullptr, value_destroyed) : p_tree_new(ty, cmp_int);
   uint32_t lcg = C->par[0] * 2654435761u + 12345u;
   auto next = [&lcg](uint32_t n) { lcg = lcg * 1664525u + 1013904223u; return (lcg >> 16) % n; };
   std::map<intptr_t, intptr_t> model;                  // content before the faulted calls
@@ -145,7 +151,11 @@ void s_tree(PTreeType ty) {
   if (t) for (int o = 0; o < nops; o++) {
     intptr_t k = 1 + next(16);
     if (next(3) == 0) { p_tree_remove(t, (ppointer)k); last[k] = {2, 0}; }
-    else { intptr_t v = 1000 + k * 10 + o; p_tree_insert(t, (ppointer)k, (ppointer)v); last[k] = {1, v}; }
+    else {
+      intptr_t v = 1000 + k * 10 + o; p_tree_insert(t, (ppointer)k, (ppointer)v); last[k] = {1, v};
+      if (owning && p_tree_lookup(t, (ppointer)k) != (ppointer)v && g_destroyed_values.count(v))
+        violate("existing_object_damaged", C->name, "the value of an insertion that failed was handed to the destroy notifier although the caller still owns it");
+    }
   }
   disarm();
   if (t) {
@@ -161,6 +171,7 @@ void s_tree(PTreeType ty) {
       } else if (l->second.first == 2) DAMAGE(got == nullptr, "removed key %ld still present", (long)k);
       else DAMAGE(got == (ppointer)l->second.second || got == nullptr || (m != model.end() && got == (ppointer)m->second), "key %ld holds a value nobody stored", (long)k);
     }
+    if (owning) for (size_t i = 0; i < w.vals.size(); i++) DAMAGE(!g_destroyed_values.count(w.vals[i]), "a value still stored in the tree was handed to the destroy notifier");
     p_tree_free(t);
   }
   if (t2) p_tree_free(t2);
@@ -510,6 +521,7 @@ void s_threads() {
   int nthr = 1 + (int)P(0, 3);
   bool full = P(1, 2), foreign = P(2, 2);
   g_tls_dtor_calls = 0;
+  if (P(3, 4) == 0) shim::fail_setname_kth = 1 + (int)P(4, 3);      // the native call that names the thread is refused
   arm();
   ThrArg a; a.k = p_uthread_local_new(nullptr); a.kd = p_uthread_local_new(tls_dtor);
   PUThread *t[3] = {nullptr, nullptr, nullptr};
@@ -521,6 +533,7 @@ void s_threads() {
   if (a.k) { p_uthread_set_local(a.k, (ppointer)(intptr_t)1); WRONG(p_uthread_get_local(a.k) == (ppointer)(intptr_t)1 || p_uthread_get_local(a.k) == nullptr, "TLS returned a wrong value"); p_uthread_set_local(a.k, nullptr); }
   wait_all_others();          // detached and foreign threads finish while the plan is still armed: their exit paths allocate nothing that may leak
   disarm();
+  shim::fail_setname_kth = 0;
   p_uthread_local_free(a.k); p_uthread_local_free(a.kd);
 }
 
